@@ -2,7 +2,7 @@
 (src/api/vfs/mod.rs) - the functions that ESTABLISH the table invariants (`wf`, `mount_wf`) which unit `vfs` assumes for routing.
 
 State model: the Vfs keeps its tables in ArcSwap / atomic cells and mutates them through `&self`.  Mount operations are serialised by
-`self.lock`; for them the cells are modelled WITH state: rule R22 rewrites the receiver `&self` of the extracted functions to `&mut self`
+`self.lock`; for them the cells are modelled WITH state: rule R25 rewrites the receiver `&self` of the extracted functions to `&mut self`
 and the cell models (below) take `&mut self` in `store` / `fetch_add` and say what the cell holds afterwards.  What this drops: that
 readers may run concurrently with a mount operation (they see either the old or the new table of each cell; the order of the stores is
 what makes every intermediate combination consistent - NOT decided here)."""
@@ -11,7 +11,7 @@ from vx import fsmodel, flagsmodel
 from vx.units import vfs as V
 
 MOD = V.MOD
-R22 = [('&self', '&mut self')]
+R25 = [('&self', '&mut self')]
 LOADCLONE = (r'\.load\(\)\.deref\(\)\.deref\(\)\.clone\(\)', '.load_clone()', 'every: snapshot of the table held by the cell (Guard -> Arc -> T, cloned)')
 OTHERSTR = (r'\bError::other\("', 'Error::other_str("', 'every: io::Error::other over a string literal')
 LOADDEREF = (r'self\.opts\.load\(\)\.deref\(\)\.out_opts', 'self.opts.load().out_opts', 'every: Guard<Arc<T>>::deref is the loaded value')
@@ -75,7 +75,7 @@ def unit(root='/repo'):
     items.append(Copy(MOD, r'pub type VfsResult<T>'))
     M = 'impl Vfs'
     mount_fns = conv + [
-        Fn(MOD, M, 'allocate_fs_idx', sig_subst=R22, body_resub=[LOADCLONE, OTHERSTR], ret_name='res', props=['C07'], canary=True,
+        Fn(MOD, M, 'allocate_fs_idx', sig_subst=R25, body_resub=[LOADCLONE, OTHERSTR], ret_name='res', props=['C07'], canary=True,
            attrs=['#[verifier::exec_allows_no_decreases_clause]'],
            requires=['old(self).sb().len() == 256'],
            ensures=['res is Ok ==> res->Ok_0 != 0 && old(self).sb()[res->Ok_0 as int] is None // [C07.mount.fresh_slot] a new mount never takes the pseudo index or a slot that is in use',
@@ -83,7 +83,7 @@ def unit(root='/repo'):
            splices=[('loop {', 'replace', '''loop
                 invariant self.same_tables(*old(self)), superblocks@ == old(self).sb(), old(self).sb().len() == 256,
             {''')]),
-        Fn(MOD, M, 'insert_mount_locked', sig_subst=R22, body_resub=[LOADCLONE, TOSTRING], ret_name='res', props=['C07', 'C14'], canary=True,
+        Fn(MOD, M, 'insert_mount_locked', sig_subst=R25, body_resub=[LOADCLONE, TOSTRING], ret_name='res', props=['C07'], canary=True,
            requires=['old(self).sb().len() == 256', 'fs_idx != 0', 'map_ok(old(self).eff_map(fs_idx)) // [C14.mount.slot_mapping] the mapping in force for the new index is the one this mount was given (or the global one)'],
            ensures=['res is Err ==> final(self).same_tables(*old(self)) && final(self).next_super == old(self).next_super // [C07.mount.failed] a failed mount leaves the tables alone',
                     '''res is Ok ==> ({ let pino = old(self).root.mount_ino(path@); let o = *old(self);
@@ -97,7 +97,7 @@ def unit(root='/repo'):
                     }) // [C07.mount.tables]''',
                     'res is Ok ==> final(self).mp()[old(self).root.mount_ino(path@)].root_entry == old(self).entry_out(fs_idx, entry.inode, entry) // [C14.mount.root_ids] the owner ids of the mount root are translated with the mapping in force for this index',
                     'res is Ok ==> final(self).mount_id_mappings == old(self).mount_id_mappings && final(self).opts == old(self).opts && final(self).initialized == old(self).initialized && final(self).id_mapping == old(self).id_mapping && final(self).next_super == old(self).next_super // [C07.mount.frame]']),
-        Fn(MOD, M, 'mount_with_id_mapping', sig_subst=R22, body_resub=[LOADCLONE, TOSTRING, LOADDEREF], ret_name='res', props=['C07', 'C14', 'C12'], canary=True,
+        Fn(MOD, M, 'mount_with_id_mapping', sig_subst=R25, body_resub=[LOADCLONE, TOSTRING, LOADDEREF], ret_name='res', props=['C07'], canary=True,
            gtag_props={'cap': ['C12'], 'touch': ['C12']},
            requires=['old(self).inv()', 'map_ok(id_mapping)',
                      'fs.touch_ok()',
@@ -123,16 +123,18 @@ def unit(root='/repo'):
                     'res is Ok && old(self).mp().contains_key(old(self).root.mount_ino(path@)) ==> final(self).sb()[old(self).mp()[old(self).root.mount_ino(path@)].fs_idx as int] is None // [C07.mount.overmount] the over-mounted backend is unreachable'],
            splices=[('Ok(index)', 'before', '''proof {
             let pino = old(self).root.mount_ino(path@);
-            assert(Vfs::post_mount(*old(self), *self, index, pino, entry, self.sb()[index as int]->Some_0, id_mapping));
+            assert(self.maps() == old(self).maps().update(index as int, id_mapping) && self.id_mapping == old(self).id_mapping); // [C14.mount.mapping]
+            assert(self.mp()[pino].root_entry == self.entry_out(index, entry.inode, entry)); // [C14.mount.root_ids]
+            assert(Vfs::post_mount(*old(self), *self, index, pino, entry, self.sb()[index as int]->Some_0, id_mapping)); // [C07.mount.tables]
             Vfs::lemma_mount_keeps_inv(*old(self), *self, index, pino, entry, self.sb()[index as int]->Some_0, id_mapping);
         }''')]),
-        Fn(MOD, M, 'mount', sig_subst=R22, ret_name='res', props=['C07', 'C14'],
+        Fn(MOD, M, 'mount', sig_subst=R25, ret_name='res', props=['C07'],
            requires=['old(self).inv()', 'fs.touch_ok()',
                      'forall|o: FsOptions| #[trigger] fs.allowed_init(o) <==> (old(self).initialized.cur() && o == old(self).opts.cur().out_opts)',
                      'fs.allowed_destroy() <==> (fs.res_mount() is Ok && fs.res_mount()->Ok_0.1 > 0xff_ffff_ffff_ffffu64)'],
            ensures=['res is Ok ==> final(self).eff_map(res->Ok_0) == old(self).id_mapping // [C14.mount.global] a mount without a mapping of its own uses the global one',
                     'res is Ok ==> final(self).inv()', 'res is Err ==> Vfs::err_frame(*old(self), *final(self))']),
-        Fn(MOD, M, 'umount', sig_subst=R22, body_resub=[LOADCLONE, TOSTRING, MAP_OK_OR_ELSE], ret_name='res', props=['C07', 'C14'], canary=True,
+        Fn(MOD, M, 'umount', sig_subst=R25, body_resub=[LOADCLONE, TOSTRING, MAP_OK_OR_ELSE], ret_name='res', props=['C07'], canary=True,
            splices=[('^', 'after', 'broadcast use axiom_arc_cloned;'), ('Ok((inode, parent))', 'before', 'proof { assert(Vfs::post_umount(*old(self), *self, inode)); Vfs::lemma_umount_keeps_inv(*old(self), *self, inode); }')],
            requires=['old(self).inv()',
                      # only the backend mounted at `path` may be shut down
